@@ -518,10 +518,13 @@ impl<'id, N: NodeBase, ET: Tag, const TAG_BITS: u32> Edge<'id, N, ET, TAG_BITS> 
         TM: TerminalManager<'id, N, ET, MD, PAGE_SIZE, TAG_BITS>,
         MD: DropWith<Edge<'id, N, ET, TAG_BITS>>,
     {
+        // Note that the `ArcSlab`'s data type is `StoreInner`, not `Manager`.
+        // `IntHandle` uses this type to locate the `ArcSlab`'s internal fields
+        // when it frees the slot.
         let handle: IntHandle<
             'id,
             N,
-            Manager<'id, N, ET, TM, R, MD, PAGE_SIZE, TAG_BITS>,
+            StoreInner<'id, N, ET, TM, R, MD, PAGE_SIZE, TAG_BITS>,
             PAGE_SIZE,
         > = {
             debug_assert_eq!(self.addr() & Self::ALL_TAG_MASK, 0);
@@ -562,10 +565,13 @@ impl<'id, N: NodeBase, ET: Tag, const TAG_BITS: u32> Edge<'id, N, ET, TAG_BITS> 
         TM: TerminalManager<'id, N, ET, MD, PAGE_SIZE, TAG_BITS>,
         MD: DropWith<Edge<'id, N, ET, TAG_BITS>>,
     {
+        // Note that the `ArcSlab`'s data type is `StoreInner`, not `Manager`.
+        // `IntHandle` uses this type to locate the `ArcSlab`'s internal fields
+        // when it frees the slot.
         let handle: IntHandle<
             'id,
             N,
-            Manager<'id, N, ET, TM, R, MD, PAGE_SIZE, TAG_BITS>,
+            StoreInner<'id, N, ET, TM, R, MD, PAGE_SIZE, TAG_BITS>,
             PAGE_SIZE,
         > = {
             debug_assert_eq!(self.addr() & Self::ALL_TAG_MASK, 0);
